@@ -1,10 +1,341 @@
 package main
 
-import "go/types"
+// Replay of solver models against the real code.
+//
+// When a failed obligation comes with a model (status sat), the model's values for the quantified variables of a lemma -
+// or for the parameters of a pure function whose parameters are all scalars - are turned into an in-package Go test that
+// evaluates the violated clause on the REAL functions of /repo's current tree (go test -overlay: nothing is written to
+// the repository). If that test fails, the counterexample is confirmed and the VIOLATION line carries no
+// "no-failing-input-found". Everything outside these two classes (heap-shaped inputs, ghost state, quantified clauses,
+// strings in uninterpreted mode) has no replay: the violation is still reported, with the solver's output in the replay file.
+
+import (
+	"encoding/json"
+	"fmt"
+	"go/types"
+	"os"
+	"os/exec"
+	"path/filepath"
+	"regexp"
+	"sort"
+	"strings"
+	"time"
+
+	"golang.org/x/tools/go/ssa"
+)
 
 func typesNewPointer(t types.Type) types.Type { return types.NewPointer(t) }
 
-// tryReplay attempts to replay a solver model against the real code (per-contract templates). Returns (confirmed, output).
-func tryReplay(g *Gen, o *Obligation, r *SolveResult, scratch string) (bool, string) {
-	return false, "no replay template for this obligation"
+// modelValues parses (define-fun name () Sort value) entries of a solver model; integers and booleans only.
+func modelValues(model string) map[string]string {
+	out := map[string]string{}
+	re := regexp.MustCompile(`\(define-fun\s+(\|[^|]*\||[^\s()]+)\s+\(\)\s+(Int|Bool)\s+(\(-\s*\d+\)|-?\d+|true|false)\s*\)`)
+	for _, m := range re.FindAllStringSubmatch(model, -1) {
+		n := strings.Trim(m[1], "|")
+		v := m[3]
+		if strings.HasPrefix(v, "(") {
+			v = "-" + strings.TrimSpace(strings.Trim(v, "()-"))
+		}
+		out[n] = v
+	}
+	return out
 }
+
+type goPrinter struct {
+	g       *Gen
+	pkgPath string
+	pkg     *types.Package
+	imports map[string]string // local name -> path
+	subst   map[string]string // identifier -> Go text
+	depth   int
+	err     error
+}
+
+func (p *goPrinter) fail(format string, a ...interface{}) string {
+	if p.err == nil {
+		p.err = fmt.Errorf(format, a...)
+	}
+	return "false"
+}
+
+func (p *goPrinter) typ(t *TypeExpr) string {
+	switch t.Kind {
+	case "name":
+		if t.Pkg != "" {
+			p.usePkg(t.Pkg)
+			return t.Pkg + "." + t.Name
+		}
+		return t.Name
+	}
+	return p.fail("type %s has no replay", t.String())
+}
+
+func (p *goPrinter) usePkg(name string) {
+	if p.pkg == nil {
+		return
+	}
+	for _, im := range p.pkg.Imports() {
+		if im.Name() == name {
+			p.imports[name] = im.Path()
+		}
+	}
+}
+
+// expr prints a contract expression as a Go expression over the real package (quantifier-free, scalar fragment).
+func (p *goPrinter) expr(e Expr) string {
+	if p.err != nil {
+		return "false"
+	}
+	switch x := e.(type) {
+	case *EIdent:
+		if s, ok := p.subst[x.Name]; ok {
+			return s
+		}
+		return x.Name
+	case *EInt:
+		return x.Val
+	case *EBool:
+		return fmt.Sprint(x.Val)
+	case *EStr:
+		return fmt.Sprintf("%q", x.Val)
+	case *EUnary:
+		return "(" + x.Op + p.expr(x.X) + ")"
+	case *EBinary:
+		a, b := p.expr(x.X), p.expr(x.Y)
+		switch x.Op {
+		case "==>":
+			return "(!(" + a + ") || (" + b + "))"
+		case "<==>":
+			return "((" + a + ") == (" + b + "))"
+		}
+		return "(" + a + " " + x.Op + " " + b + ")"
+	case *EIte:
+		return "func() " + "interface{}" + " { if " + p.expr(x.C) + " { return " + p.expr(x.A) + " }; return " + p.expr(x.B) + " }()"
+	case *ESel:
+		if id, ok := x.X.(*EIdent); ok {
+			if _, bound := p.subst[id.Name]; !bound && p.pkg != nil {
+				for _, im := range p.pkg.Imports() {
+					if im.Name() == id.Name {
+						p.usePkg(id.Name)
+						return id.Name + "." + x.Sel
+					}
+				}
+			}
+		}
+		return p.expr(x.X) + "." + x.Sel
+	case *ECall:
+		// ghost function with a body: unfold it (bounded); real function or method: call it
+		if id, ok := x.Fun.(*EIdent); ok {
+			if gf := p.g.ghosts[p.pkgPath+"."+id.Name]; gf != nil {
+				if gf.Body == nil || gf.Rec || gf.Fuel || p.depth > 8 || len(gf.Params) != len(x.Args) {
+					return p.fail("ghost function %s has no replay", id.Name)
+				}
+				saved := p.subst
+				ns := map[string]string{}
+				for k, v := range saved {
+					ns[k] = v
+				}
+				for i, prm := range gf.Params {
+					ns[prm.Name] = "(" + p.expr(x.Args[i]) + ")"
+				}
+				p.subst = ns
+				p.depth++
+				s := p.expr(gf.Body)
+				p.depth--
+				p.subst = saved
+				return "(" + s + ")"
+			}
+			switch id.Name {
+			case "len":
+				if len(x.Args) == 1 {
+					return "len(" + p.expr(x.Args[0]) + ")"
+				}
+			case "old", "fresh", "iface", "deref", "dom", "vals":
+				return p.fail("%s(...) has no replay", id.Name)
+			}
+		}
+		var args []string
+		for _, a := range x.Args {
+			args = append(args, p.expr(a))
+		}
+		return p.expr(x.Fun) + "(" + strings.Join(args, ", ") + ")"
+	}
+	return p.fail("expression %s has no replay", e.String())
+}
+
+func isScalarSort(s string) bool { return s == "Int" || s == "Bool" }
+
+func goLiteral(goType, val string, isBool bool) string {
+	if isBool {
+		return val
+	}
+	return fmt.Sprintf("%s(%s)", goType, val)
+}
+
+// runReplayTest writes the test source to the scratch directory, overlays it into the package directory and runs it.
+// Returns (the test failed as a confirmed counterexample, output).
+func runReplayTest(g *Gen, pkgPath, src, scratch string) (bool, string) {
+	p := g.byPath[pkgPath]
+	if p == nil || len(p.GoFiles) == 0 {
+		return false, "package not loaded: " + pkgPath
+	}
+	dir := filepath.Dir(p.GoFiles[0])
+	tf := filepath.Join(scratch, fmt.Sprintf("govc_replay_%d_test.go", time.Now().UnixNano()))
+	if err := os.WriteFile(tf, []byte(src), 0o644); err != nil {
+		return false, err.Error()
+	}
+	ov := filepath.Join(scratch, fmt.Sprintf("ov_%d.json", time.Now().UnixNano()))
+	b, _ := json.Marshal(map[string]interface{}{"Replace": map[string]string{filepath.Join(dir, "zz_govc_replay_test.go"): tf}})
+	_ = os.WriteFile(ov, b, 0o644)
+	cmd := exec.Command("go", "test", "-overlay", ov, "-vet=off", "-timeout", "60s", "-count=1", "-run", "^TestGovcReplay$", ".")
+	cmd.Dir = dir
+	cmd.Env = append(os.Environ(), "GOFLAGS=-mod=mod", "GOPROXY=off", "GOSUMDB=off", "GOTOOLCHAIN=local")
+	out, err := cmd.CombinedOutput()
+	text := string(out)
+	if len(text) > 4000 {
+		text = text[:4000]
+	}
+	confirmed := err != nil && strings.Contains(text, "GOVC-COUNTEREXAMPLE-CONFIRMED")
+	return confirmed, "replay test (run with go test -overlay in " + dir + "):\n" + src + "\noutput:\n" + text
+}
+
+// tryReplay attempts to replay a solver model against the real code. Returns (confirmed, output).
+func tryReplay(g *Gen, o *Obligation, r *SolveResult, scratch string) (bool, string) {
+	vals := modelValues(r.Model)
+	if o.Kind == "lemma" && strings.HasPrefix(o.Func, "lemma ") {
+		name := strings.TrimPrefix(o.Func, "lemma ")
+		for _, lm := range g.lemmas {
+			if lm.Name == name && lm.IndVar == "" {
+				return replayLemma(g, lm, vals, scratch)
+			}
+		}
+		return false, "no replay for this lemma (induction)"
+	}
+	if o.Kind == "ensures" && o.fc != nil && o.clause != nil {
+		return replayPureEnsures(g, o, vals, scratch)
+	}
+	return false, "no replay for this kind of obligation (only lemmas over scalars and postconditions of pure functions with scalar parameters are replayed)"
+}
+
+func replayLemma(g *Gen, lm *Lemma, vals map[string]string, scratch string) (bool, string) {
+	q, ok := lm.E.(*EQuant)
+	if !ok || !q.Forall {
+		return false, "lemma is not a universally quantified formula"
+	}
+	pkg := g.byPath[lm.PkgPath]
+	if pkg == nil {
+		return false, "package not loaded"
+	}
+	pr := &goPrinter{g: g, pkgPath: lm.PkgPath, pkg: pkg.Types, imports: map[string]string{}, subst: map[string]string{}}
+	var decls, shown []string
+	for _, qv := range q.Vars {
+		v, ok := vals[strings.Trim(sym("sk."+qv.Name), "|")]
+		if !ok {
+			return false, "the model gives no value for " + qv.Name
+		}
+		gt := pr.typ(qv.T)
+		isBool := v == "true" || v == "false"
+		decls = append(decls, fmt.Sprintf("\tvar %s %s = %s", qv.Name, gt, goLiteral(gt, v, isBool)))
+		shown = append(shown, fmt.Sprintf("%s=%s", qv.Name, v))
+	}
+	body := pr.expr(q.Body)
+	if pr.err != nil {
+		return false, "no replay: " + pr.err.Error()
+	}
+	return runReplayTest(g, lm.PkgPath, replaySource(pkg.Types.Name(), pr.imports, decls, body, "lemma "+lm.Name+": "+lm.Src, strings.Join(shown, " ")), scratch)
+}
+
+func replaySource(pkgName string, imports map[string]string, decls []string, cond, what, shown string) string {
+	var b strings.Builder
+	fmt.Fprintf(&b, "package %s\n\nimport (\n\t\"testing\"\n", pkgName)
+	var ks []string
+	for k := range imports {
+		ks = append(ks, k)
+	}
+	sort.Strings(ks)
+	for _, k := range ks {
+		fmt.Fprintf(&b, "\t%s %q\n", k, imports[k])
+	}
+	fmt.Fprintf(&b, ")\n\n// generated by govc from a solver model: %s\nfunc TestGovcReplay(t *testing.T) {\n", strings.ReplaceAll(what, "\n", " "))
+	for _, d := range decls {
+		b.WriteString(d + "\n")
+	}
+	fmt.Fprintf(&b, "\tif !(%s) {\n\t\tt.Fatalf(\"GOVC-COUNTEREXAMPLE-CONFIRMED: the clause is false on the real code for %s\")\n\t}\n}\n", cond, shown)
+	return b.String()
+}
+
+// replayPureEnsures: postcondition of a pure function (or method) all of whose parameters, receiver included, are scalars:
+// the model's parameter values are passed to the real function and the clause is evaluated on its result.
+func replayPureEnsures(g *Gen, o *Obligation, vals map[string]string, scratch string) (bool, string) {
+	fc := o.fc
+	fn := g.fnOf[fc]
+	if fn == nil || fn.Parent() != nil || !fc.Pure || fn.Pkg == nil {
+		return false, "no replay: not a pure named function"
+	}
+	sig := g.sigOf(fc)
+	if sig == nil || len(sig.results) != 1 {
+		return false, "no replay: needs exactly one result"
+	}
+	pkg := g.byPath[fn.Pkg.Pkg.Path()]
+	if pkg == nil {
+		return false, "package not loaded"
+	}
+	pr := &goPrinter{g: g, pkgPath: fc.PkgPath, pkg: pkg.Types, imports: map[string]string{}, subst: map[string]string{}}
+	qual := func(t types.Type) string {
+		return types.TypeString(t, func(p *types.Package) string {
+			if p == pkg.Types {
+				return ""
+			}
+			pr.imports[p.Name()] = p.Path()
+			return p.Name()
+		})
+	}
+	var decls, shown, args []string
+	for i, prm := range fn.Params {
+		b, ok := prm.Type().Underlying().(*types.Basic)
+		if !ok || b.Info()&(types.IsInteger|types.IsBoolean) == 0 {
+			return false, "no replay: parameter " + prm.Name() + " is not an integer or boolean"
+		}
+		if i >= len(o.paramTerms) {
+			return false, "no replay: parameter terms not recorded"
+		}
+		v, ok := vals[strings.Trim(o.paramTerms[i], "|")]
+		if !ok {
+			// a parameter the model does not mention is irrelevant to the counterexample
+			v = "0"
+			if b.Info()&types.IsBoolean != 0 {
+				v = "false"
+			}
+		}
+		name := sig.params[i].name
+		if name == "" || name == "_" {
+			name = fmt.Sprintf("p%d", i)
+		}
+		gt := qual(prm.Type())
+		decls = append(decls, fmt.Sprintf("\tvar %s %s = %s", name, gt, goLiteral(gt, v, b.Info()&types.IsBoolean != 0)))
+		decls = append(decls, fmt.Sprintf("\t_ = %s", name))
+		shown = append(shown, fmt.Sprintf("%s=%s", name, v))
+		args = append(args, name)
+	}
+	call := ""
+	if fn.Signature.Recv() != nil {
+		if len(args) == 0 {
+			return false, "no replay: receiver missing"
+		}
+		call = fmt.Sprintf("%s.%s(%s)", args[0], fn.Name(), strings.Join(args[1:], ", "))
+	} else {
+		call = fmt.Sprintf("%s(%s)", fn.Name(), strings.Join(args, ", "))
+	}
+	decls = append(decls, fmt.Sprintf("\t%s := %s", sig.results[0].name, call), fmt.Sprintf("\t_ = %s", sig.results[0].name))
+	// preconditions must hold for the model's inputs (otherwise the input is outside the contract)
+	cond := pr.expr(o.clause)
+	for _, rq := range fc.Requires {
+		cond = "(!(" + pr.expr(rq.E) + ") || " + cond + ")"
+	}
+	if pr.err != nil {
+		return false, "no replay: " + pr.err.Error()
+	}
+	return runReplayTest(g, fn.Pkg.Pkg.Path(), replaySource(pkg.Types.Name(), pr.imports, decls, cond, o.Func+": "+o.Src, strings.Join(shown, " ")), scratch)
+}
+
+var _ = ssa.Function{}
